@@ -952,4 +952,367 @@ theorem S_perm_of_lab (ntr : List (Nat × Nat)) (c : Nat) (A B : List CellRec)
   rw [← filter_row_of_filter_lab ntr c A, ← filter_row_of_filter_lab ntr c B]
   exact rowSum_perm ((h.filter _).map _)
 
+
+/-! ### `truncate_precomputed_stats_file` -/
+
+/-- one step of the grouping loop of `groupByAnc` -/
+def gstep (acc : List (Nat × List Nat)) (p : Nat × Nat) : List (Nat × List Nat) :=
+  if acc.any (fun q => q.1 == p.2) then
+    acc.map (fun q => if q.1 == p.2 then (q.1, q.2 ++ [p.1]) else q)
+  else acc ++ [(p.2, [p.1])]
+
+theorem groupByAnc_eq (anc : List (Nat × Nat)) : groupByAnc anc = anc.foldl gstep [] := rfl
+
+/-- invariant of the grouping loop after the prefix `pre` -/
+structure GInv (pre : List (Nat × Nat)) (acc : List (Nat × List Nat)) : Prop where
+  nodup : (acc.map (·.1)).Nodup
+  vals : ∀ q ∈ acc, q.2 = (pre.filter (fun p => p.2 == q.1)).map (·.1)
+  keys : ∀ L, L ∈ acc.map (·.1) ↔ L ∈ pre.map (·.2)
+
+theorem gstep_inv (pre : List (Nat × Nat)) (acc : List (Nat × List Nat)) (p : Nat × Nat)
+    (inv : GInv pre acc) : GInv (pre ++ [p]) (gstep acc p) := by
+  by_cases hany : acc.any (fun q => q.1 == p.2) = true
+  · have hkeys : (acc.map (fun q => if q.1 == p.2 then (q.1, q.2 ++ [p.1]) else q)).map (·.1)
+        = acc.map (·.1) := by
+      rw [List.map_map]
+      apply List.map_congr_left
+      intro q _
+      simp only [Function.comp]
+      split <;> rfl
+    have hmem : p.2 ∈ acc.map (·.1) := by
+      simp only [List.any_eq_true] at hany
+      obtain ⟨q, hq, hqk⟩ := hany
+      simp only [List.mem_map]
+      exact ⟨q, hq, by simpa using hqk⟩
+    simp only [gstep, hany, if_true]
+    refine ⟨by rw [hkeys]; exact inv.nodup, ?_, ?_⟩
+    · intro q' hq'
+      simp only [List.mem_map] at hq'
+      obtain ⟨q, hq, rfl⟩ := hq'
+      by_cases hqk : q.1 = p.2
+      · have e : (if q.1 == p.2 then (q.1, q.2 ++ [p.1]) else q) = (q.1, q.2 ++ [p.1]) := by
+          simp [hqk]
+        have e2 : [p].filter (fun p' => p'.2 == q.1) = [p] := by simp [hqk]
+        rw [e]
+        show q.2 ++ [p.1] = _
+        rw [List.filter_append, List.map_append, ← inv.vals q hq, e2]
+        rfl
+      · have e : (if q.1 == p.2 then (q.1, q.2 ++ [p.1]) else q) = q := by
+          simp [hqk]
+        have e2 : [p].filter (fun p' => p'.2 == q.1) = [] := by
+          simp; exact fun h => hqk h.symm
+        rw [e, List.filter_append, List.map_append, ← inv.vals q hq, e2]
+        simp
+    · intro L
+      rw [hkeys, inv.keys L]
+      simp only [List.map_append, List.mem_append, List.map_cons, List.map_nil, List.mem_singleton]
+      constructor
+      · intro h; exact Or.inl h
+      · rintro (h | h)
+        · exact h
+        · subst h; exact (inv.keys _).mp hmem
+  · have hnot : p.2 ∉ acc.map (·.1) := by
+      intro h
+      apply hany
+      simp only [List.mem_map] at h
+      obtain ⟨q, hq, hqk⟩ := h
+      simp only [List.any_eq_true]
+      exact ⟨q, hq, by simpa using hqk⟩
+    simp only [gstep, hany, if_false, Bool.false_eq_true]
+    refine ⟨?_, ?_, ?_⟩
+    · rw [List.map_append, List.nodup_append]
+      refine ⟨inv.nodup, by simp, ?_⟩
+      intro a ha b hb
+      simp only [List.map_cons, List.map_nil, List.mem_singleton] at hb
+      subst hb
+      intro hab; subst hab; exact hnot ha
+    · intro q hq
+      simp only [List.mem_append, List.mem_singleton] at hq
+      rcases hq with hq | rfl
+      · have hne : q.1 ≠ p.2 := by
+          intro h; apply hnot; rw [← h]; exact List.mem_map_of_mem hq
+        have e2 : [p].filter (fun p' => p'.2 == q.1) = [] := by
+          simp; exact fun h => hne h.symm
+        rw [List.filter_append, List.map_append, ← inv.vals q hq, e2]
+        simp
+      · have : pre.filter (fun p' => p'.2 == p.2) = [] := by
+          rw [List.filter_eq_nil_iff]
+          intro p' hp' hpp
+          apply hnot
+          rw [inv.keys]
+          simp only [List.mem_map]
+          exact ⟨p', hp', by simpa using hpp⟩
+        simp [List.filter_append, this]
+    · intro L
+      simp only [List.map_append, List.mem_append, inv.keys L, List.map_cons, List.map_nil,
+        List.mem_singleton]
+
+theorem foldl_gstep_inv : ∀ (rest pre : List (Nat × Nat)) (acc : List (Nat × List Nat)),
+    GInv pre acc → GInv (pre ++ rest) (rest.foldl gstep acc) := by
+  intro rest
+  induction rest with
+  | nil => intro pre acc h; simpa using h
+  | cons p rest ih =>
+    intro pre acc h
+    have := ih (pre ++ [p]) (gstep acc p) (gstep_inv pre acc p h)
+    simpa using this
+
+theorem groupByAnc_inv (anc : List (Nat × Nat)) : GInv anc (groupByAnc anc) := by
+  have := foldl_gstep_inv anc [] [] ⟨by simp, by simp, by simp⟩
+  simpa [groupByAnc_eq] using this
+
+theorem indexIn_getElem? : ∀ (xs : List Nat) (x i : Nat), indexIn xs x = some i → xs[i]? = some x := by
+  intro xs
+  induction xs with
+  | nil => intro x i h; simp [indexIn] at h
+  | cons y ys ih =>
+    intro x i h
+    simp only [indexIn] at h
+    by_cases hxy : x = y
+    · simp only [hxy, if_true, Option.some.injEq] at h
+      subst h; simp [hxy]
+    · simp only [hxy, if_false, Option.map_eq_some_iff] at h
+      obtain ⟨j, hj, rfl⟩ := h
+      simpa using ih x j hj
+
+theorem indexIn_of_mem : ∀ (xs : List Nat) (x : Nat), x ∈ xs → ∃ i, indexIn xs x = some i := by
+  intro xs
+  induction xs with
+  | nil => intro x h; simp at h
+  | cons y ys ih =>
+    intro x h
+    simp only [indexIn]
+    by_cases hxy : x = y
+    · exact ⟨0, by simp [hxy]⟩
+    · simp only [List.mem_cons, hxy, false_or] at h
+      obtain ⟨j, hj⟩ := ih x h
+      exact ⟨j + 1, by simp [hxy, hj]⟩
+
+theorem setRow_spec : ∀ (buf : Buffer) (u : Nat) (r : Row), u < buf.length →
+    ∃ buf', setRow buf u r = some buf' ∧ buf'.length = buf.length ∧
+      ∀ c : Nat, buf'[c]? = if c = u then some r else buf[c]? := by
+  intro buf
+  induction buf with
+  | nil => intro u r h; simp at h
+  | cons b bs ih =>
+    intro u r h
+    cases u with
+    | zero =>
+      refine ⟨r :: bs, rfl, rfl, fun c => ?_⟩
+      cases c <;> simp
+    | succ u =>
+      obtain ⟨bs', h1, h2, h3⟩ := ih u r (by simpa using h)
+      refine ⟨b :: bs', by simp [setRow, h1], by simp [h2], fun c => ?_⟩
+      cases c with
+      | zero => simp
+      | succ c => simp [h3 c]
+
+theorem lookupAll_eq (m : List (Nat × Nat)) : ∀ (ks : List Nat),
+    (∀ k ∈ ks, ∃ v, m.lookup k = some v) →
+      lookupAll m ks = some (ks.filterMap (fun k => m.lookup k)) := by
+  intro ks
+  induction ks with
+  | nil => intro _; rfl
+  | cons k ks ih =>
+    intro h
+    obtain ⟨v, hv⟩ := h k (by simp)
+    have := ih (fun k' hk' => h k' (by simp [hk']))
+    simp [lookupAll, hv, this]
+
+theorem getRows_eq (data : Buffer) : ∀ (is : List Nat), (∀ i ∈ is, i < data.length) →
+    getRows data is = some (is.filterMap (fun i => data[i]?)) := by
+  intro is
+  induction is with
+  | nil => intro _; rfl
+  | cons i is ih =>
+    intro h
+    have hi : i < data.length := h i (by simp)
+    have := ih (fun k' hk' => h k' (by simp [hk']))
+    simp [getRows, this, hi]
+
+/-- the new row built from the old leaves `olds`: their rows (through
+`cluster_to_row`), sorted ascending, read from the old arrays and summed -/
+def newRow (data : Buffer) (oldLeafToRow : List (Nat × Nat)) (olds : List Nat) : Row :=
+  rowSum (((olds.filterMap (fun k => oldLeafToRow.lookup k)).mergeSort).filterMap
+    (fun r => data[r]?))
+
+theorem go_spec (data : Buffer) (oltr : List (Nat × Nat)) (newLeaves : List Nat) :
+    ∀ (groups : List (Nat × List Nat)) (acc : Buffer),
+      (groups.map (·.1)).Nodup →
+      (∀ q ∈ groups, q.1 ∈ newLeaves ∧
+        ∀ k ∈ q.2, ∃ v, oltr.lookup k = some v ∧ v < data.length) →
+      acc.length = newLeaves.length →
+      ∃ out, convertToNewLeaves.go data oltr newLeaves groups acc = .ok out ∧
+        out.length = newLeaves.length ∧
+        ∀ (L i : Nat), indexIn newLeaves L = some i →
+          (∀ q ∈ groups, q.1 = L → out[i]? = some (newRow data oltr q.2)) ∧
+          (L ∉ groups.map (·.1) → out[i]? = acc[i]?) := by
+  intro groups
+  induction groups with
+  | nil =>
+    intro acc _ _ hlen
+    exact ⟨acc, rfl, hlen, fun L i _ => ⟨by simp, fun _ => rfl⟩⟩
+  | cons q rest ih =>
+    intro acc hnd hq hlen
+    obtain ⟨nl, olds⟩ := q
+    simp only [List.map_cons, List.nodup_cons] at hnd
+    obtain ⟨hmem, hlook⟩ := hq (nl, olds) (by simp)
+    obtain ⟨dst, hdst⟩ := indexIn_of_mem newLeaves nl hmem
+    have hdst' := indexIn_getElem? newLeaves nl dst hdst
+    have hdlt : dst < newLeaves.length := by
+      by_contra hn
+      rw [List.getElem?_eq_none (by omega)] at hdst'
+      exact absurd hdst' (by simp)
+    have hla := lookupAll_eq oltr olds (fun k hk => by
+      obtain ⟨v, hv, _⟩ := hlook k hk; exact ⟨v, hv⟩)
+    have hgr := getRows_eq data
+      (convertToNewLeaves.uniqueSortedDup (olds.filterMap (fun k => oltr.lookup k))) (by
+        intro r hr
+        simp only [convertToNewLeaves.uniqueSortedDup, List.mem_mergeSort, List.mem_filterMap] at hr
+        obtain ⟨k, hk, hkr⟩ := hr
+        obtain ⟨v, hv, hvlt⟩ := hlook k hk
+        rw [hv] at hkr
+        simp only [Option.some.injEq] at hkr
+        omega)
+    obtain ⟨acc', h1, h2, h3⟩ := setRow_spec acc dst (newRow data oltr olds) (by omega)
+    obtain ⟨out, h4, h5, h6⟩ := ih acc' hnd.2
+      (fun q' hq' => hq q' (by simp [hq'])) (by rw [h2, hlen])
+    refine ⟨out, ?_, h5, fun L i hi => ?_⟩
+    · simp only [convertToNewLeaves.go, hdst, hla, hgr]
+      simp only [convertToNewLeaves.uniqueSortedDup] at h1 ⊢
+      simp only [newRow] at h1
+      simp only [h1, h4]
+    · obtain ⟨h7, h8⟩ := h6 L i hi
+      have hi' := indexIn_getElem? newLeaves L i hi
+      constructor
+      · intro q' hq' hq'L
+        simp only [List.mem_cons] at hq'
+        rcases hq' with rfl | hq'
+        · simp only at hq'L
+          subst hq'L
+          have hid : i = dst := by
+            rw [hdst] at hi; simpa using hi.symm
+          rw [h8 hnd.1, h3 i, if_pos hid]
+        · exact h7 q' hq' hq'L
+      · intro hL
+        simp only [List.map_cons, List.mem_cons, not_or] at hL
+        have hid : i ≠ dst := by
+          intro h; subst h
+          rw [hdst'] at hi'
+          simp only [Option.some.injEq] at hi'
+          exact hL.1 hi'.symm
+        rw [h8 hL.2, h3 i, if_neg hid]
+
+theorem truncate_spec (g : Nat) (data : Buffer) (oltr : List (Nat × Nat)) (newLeaves : List Nat)
+    (anc : List (Nat × Nat))
+    (hlook : ∀ p ∈ anc, ∃ r, oltr.lookup p.1 = some r ∧ r < data.length)
+    (hanc : ∀ p ∈ anc, p.2 ∈ newLeaves) :
+    ∃ out, truncate g data oltr newLeaves anc = .ok out ∧ out.length = newLeaves.length ∧
+      ∀ (L i : Nat), indexIn newLeaves L = some i →
+        out[i]? = some (if anc.filter (fun p => p.2 == L) = [] then Row.zero g
+          else newRow data oltr ((anc.filter (fun p => p.2 == L)).map (·.1))) := by
+  have inv := groupByAnc_inv anc
+  obtain ⟨out, h1, h2, h3⟩ := go_spec data oltr newLeaves (groupByAnc anc)
+    (zeroBuffer newLeaves.length g) inv.nodup (by
+      intro q hq
+      constructor
+      · have : q.1 ∈ anc.map (·.2) := (inv.keys q.1).mp (List.mem_map_of_mem hq)
+        simp only [List.mem_map] at this
+        obtain ⟨p, hp, hpq⟩ := this
+        rw [← hpq]; exact hanc p hp
+      · intro k hk
+        rw [inv.vals q hq] at hk
+        simp only [List.mem_map, List.mem_filter] at hk
+        obtain ⟨p, ⟨hp, _⟩, rfl⟩ := hk
+        exact hlook p hp) (by simp [zeroBuffer])
+  refine ⟨out, h1, h2, fun L i hi => ?_⟩
+  obtain ⟨h4, h5⟩ := h3 L i hi
+  have hilt : i < newLeaves.length := by
+    have := indexIn_getElem? newLeaves L i hi
+    by_contra hn
+    rw [List.getElem?_eq_none (by omega)] at this
+    exact absurd this (by simp)
+  by_cases hL : L ∈ (groupByAnc anc).map (·.1)
+  · have hne : anc.filter (fun p => p.2 == L) ≠ [] := by
+      rw [inv.keys] at hL
+      simp only [List.mem_map] at hL
+      obtain ⟨p, hp, hpL⟩ := hL
+      intro h
+      rw [List.filter_eq_nil_iff] at h
+      exact h p hp (by simpa using hpL)
+    simp only [List.mem_map] at hL
+    obtain ⟨q, hq, hqL⟩ := hL
+    rw [h4 q hq hqL, if_neg hne, inv.vals q hq, hqL]
+  · have he : anc.filter (fun p => p.2 == L) = [] := by
+      rw [List.filter_eq_nil_iff]
+      intro p hp hpL
+      apply hL
+      rw [inv.keys]
+      simp only [List.mem_map]
+      exact ⟨p, hp, by simpa using hpL⟩
+    rw [h5 hL, if_pos he]
+    simp [zeroBuffer, hilt]
+
+theorem rowSum_map_zero_add (g : Nat) {α : Type} (F : α → Row) :
+    ∀ (L : List α), L ≠ [] →
+      rowSum (L.map (fun x => (Row.zero g).add (F x))) = (Row.zero g).add (rowSum (L.map F)) := by
+  intro L
+  induction L with
+  | nil => intro h; exact absurd rfl h
+  | cons x L ih =>
+    intro _
+    by_cases hL : L = []
+    · subst hL; simp
+    · simp only [List.map_cons, rowSum_cons, ih hL, Row.zero_add_add_zero_add]
+
+theorem filterMap_eq_map_of_forall {α β : Type} (f : α → Option β) (h : α → β) :
+    ∀ (l : List α), (∀ x ∈ l, f x = some (h x)) → l.filterMap f = l.map h := by
+  intro l
+  induction l with
+  | nil => intro _; rfl
+  | cons x l ih =>
+    intro hx
+    rw [List.filterMap_cons, hx x (by simp), ih (fun y hy => hx y (by simp [hy]))]
+    rfl
+
+theorem newRow_direct (g : Nat) (data : Buffer) (oltr : List (Nat × Nat)) (olds : List Nat)
+    (Sl : Nat → List Row) (hne : olds ≠ [])
+    (hdata : ∀ k ∈ olds, ∃ r, oltr.lookup k = some r ∧
+      data[r]? = some ((Row.zero g).add (rowSum (Sl k)))) :
+    newRow data oltr olds = (Row.zero g).add (rowSum ((olds.map Sl).flatten)) := by
+  have hperm : (((olds.filterMap (fun k => oltr.lookup k)).mergeSort).filterMap
+      (fun r => data[r]?)).Perm
+      ((olds.filterMap (fun k => oltr.lookup k)).filterMap (fun r => data[r]?)) :=
+    (List.mergeSort_perm _ _).filterMap _
+  rw [newRow, rowSum_perm hperm, List.filterMap_filterMap,
+    filterMap_eq_map_of_forall _ (fun k => (Row.zero g).add (rowSum (Sl k))) olds (by
+      intro k hk
+      obtain ⟨r, h1, h2⟩ := hdata k hk
+      simp [h1, h2]),
+    rowSum_map_zero_add g (fun k => rowSum (Sl k)) olds hne, rowSum_flatten, List.map_map]
+  rfl
+
+theorem truncate_direct_spec (g : Nat) (data : Buffer) (oltr : List (Nat × Nat))
+    (newLeaves : List Nat) (anc : List (Nat × Nat)) (Sl : Nat → List Row)
+    (hlook : ∀ p ∈ anc, ∃ r, oltr.lookup p.1 = some r ∧ r < data.length ∧
+      data[r]? = some ((Row.zero g).add (rowSum (Sl p.1))))
+    (hanc : ∀ p ∈ anc, p.2 ∈ newLeaves) :
+    ∃ out, truncate g data oltr newLeaves anc = .ok out ∧ out.length = newLeaves.length ∧
+      ∀ (L i : Nat), indexIn newLeaves L = some i →
+        out[i]? = some ((Row.zero g).add (rowSum
+          (((anc.filter (fun p => p.2 == L)).map (fun p => Sl p.1)).flatten))) := by
+  obtain ⟨out, h1, h2, h3⟩ := truncate_spec g data oltr newLeaves anc
+    (fun p hp => by obtain ⟨r, a, b, _⟩ := hlook p hp; exact ⟨r, a, b⟩) hanc
+  refine ⟨out, h1, h2, fun L i hi => ?_⟩
+  rw [h3 L i hi]
+  by_cases he : anc.filter (fun p => p.2 == L) = []
+  · simp [he]
+  · rw [if_neg he, newRow_direct g data oltr _ Sl (by simpa using he) (by
+      intro k hk
+      simp only [List.mem_map, List.mem_filter] at hk
+      obtain ⟨p, ⟨hp, _⟩, rfl⟩ := hk
+      obtain ⟨r, a, _, c⟩ := hlook p hp
+      exact ⟨r, a, c⟩), List.map_map]
+    rfl
+
 end CTM.Stats
